@@ -2155,23 +2155,28 @@ impl<'store> FindTextSelectionsIter<'store> {
                 } else {
                     0
                 };
+                //the relation (and the limit) constrains where the found items *end*
                 self.textseliters.push((
-                    self.resource.range(begin, self.refset.begin().unwrap()),
-                    true,
+                    self.resource
+                        .range(begin, self.refset.begin().unwrap() + 1),
+                    false, //search backwards! end must be in range above
                 ));
             }
             TextSelectionOperator::Succeeds {
                 allow_whitespace, ..
             } => {
+                //found items end at the begin of self, or up to WHITESPACE_LIMIT before it
                 self.textseliters.push((
                     self.resource.range(
-                        self.refset.begin().unwrap(),
-                        self.refset.begin().unwrap()
-                            + if allow_whitespace {
-                                WHITESPACE_LIMIT + 1
-                            } else {
-                                1
-                            },
+                        if allow_whitespace {
+                            self.refset
+                                .begin()
+                                .unwrap()
+                                .saturating_sub(WHITESPACE_LIMIT)
+                        } else {
+                            self.refset.begin().unwrap()
+                        },
+                        self.refset.begin().unwrap() + 1,
                     ),
                     false, //search backwards!! end must be in range above
                 ));
